@@ -195,7 +195,12 @@ def _setting_cell(kind, param, value):
         if kind == "window-does-not-fit":
             cls = SlidingWindowSplitter if value == "sliding" else ExpandingWindowSplitter
             k = "window_length" if value == "sliding" else "initial_window"
-            return (lambda: list(cls(fh=[1, 3], **{k: cx.n - 1}).split(cx.y))), (lambda: list(cls(fh=[1, 3], **{k: cx.n - 3}).split(cx.y))), None
+            # every window that just does not fit: n - max(fh) < window <= n - 1, for contiguous and gapped horizons
+            fh = [[1, 3], [2, 4], [3], [1, 2, 3], [2, 5]][int(cx.rng.integers(0, 5))]
+            wl = cx.n - max(fh) + 1 + int(cx.rng.integers(0, max(fh) - 1)) if max(fh) > 1 else cx.n
+            ops = [lambda cv: list(cv.split(cx.y)), lambda cv: (list(cv.split(cx.y)), cv.get_n_splits(cx.y))[0]]
+            op = ops[run.variant % 2]
+            return (lambda: op(cls(fh=fh, **{k: wl}))), (lambda: op(cls(fh=fh, **{k: cx.n - max(fh)}))), None
         raise ValueError(kind)
     run.variant = 0
     return run
